@@ -53,6 +53,20 @@ theorem ewrAdd_apply_dead (s : St) (wr e v sys : Nat) (h : s.alive e = false) : 
 theorem ewrAdd_dead (s : St) (wr e v : Nat) (h : s.alive e = false) : enqueue s (.ewrAdd wr e v) = (s, []) := by
   simp [enqueue, h]
 
+/-- `EntityReactor::add` called by a body directly: the entity is looked up at the call; the insertion of the local data
+    and the registration are queued behind whatever the body queued before ... -/
+theorem ewrAddNow_alive (s : St) (wr e v : Nat) (h : s.alive e = true) :
+    enqueue s (.ewrAddNow wr e v) = (s, [.ewrInsertLocal e wr v, .register (ewrBundle wr e) (s.ewrSys wr) .persistent]) := by
+  simp [enqueue, h]
+
+theorem ewrAddNow_dead (s : St) (wr e v : Nat) (h : s.alive e = false) : enqueue s (.ewrAddNow wr e v) = (s, []) := by
+  simp [enqueue, h]
+
+/-- ... and an entity despawned between that call and the application of the queued insertion gets no local data
+    (`try_insert`): nothing else changes, in particular nothing panics. -/
+theorem insertLocal_dead (s : St) (e wr v : Nat) (h : s.alive e = false) : applyCmd s (.ewrInsertLocal e wr v) = s := by
+  simp [applyCmd, h]
+
 theorem insertLocal_sets (s : St) (e wr v : Nat) (h : s.alive e = true) :
     alookup ((applyCmd s (.ewrInsertLocal e wr v)).ewLocal e) wr = some v := by
   have aset_lookup : ∀ (l : List (Nat × Nat)), alookup (aset l wr v) wr = some v := by
